@@ -48,7 +48,8 @@ type spec struct {
 	Tiers      map[string]tierSpec `json:"tiers"`
 	ExtraPkgs  []string            `json:"extra_pkgs"`
 	QuickSkip  []string            `json:"quick_skip"` // harness name substrings only run in the thorough tier
-	NoNative   bool                `json:"no_native"`  // harness cannot be replayed natively (schedule exploration)
+	NoNative   bool                `json:"no_native"`
+	Solver     string              `json:"solver"`     // z3 (default) | z3-new | cvc5  // harness cannot be replayed natively (schedule exploration)
 }
 
 type knownFinding struct {
@@ -177,7 +178,7 @@ func check(id, tier string, rest []string) int {
 		Patterns:  append([]string{"./" + s.Pkg, "./zz_verif/verif"}, s.ExtraPkgs...),
 		Overlay:   overlay,
 		Env:       goEnv(),
-		Solver:    os.Getenv("GOSYM_SOLVER"),
+		Solver:    firstNonEmpty(os.Getenv("GOSYM_SOLVER"), s.Solver),
 		TimeoutMs: ts.TimeoutMs,
 		Seed:      seed,
 		SampleN:   ts.Validate,
@@ -253,6 +254,24 @@ func check(id, tier string, rest []string) int {
 		}
 	}
 
+	// ---- cross-check with a second solver (thorough tier) ----
+	crossNote := ""
+	var crossFail []string
+	if ts.CrossSolver != "" && ts.CrossSolver != cfg.Solver {
+		prog.SetSolver(ts.CrossSolver)
+		t1 := time.Now()
+		res2 := prog.ExploreAll(pkgPath, names)
+		for k, r := range results {
+			r2 := res2[k]
+			if len(r.Violations) != len(r2.Violations) || len(r.Known) != len(r2.Known) || r.Completed != r2.Completed || len(r2.SolverFail) > 0 {
+				crossFail = append(crossFail, fmt.Sprintf("%s: solvers disagree (%s: completed=%d violations=%d known=%d; %s: completed=%d violations=%d known=%d solverfail=%d)",
+					r.Harness, solverName(cfg.Solver), r.Completed, len(r.Violations), len(r.Known), solverName(ts.CrossSolver), r2.Completed, len(r2.Violations), len(r2.Known), len(r2.SolverFail)))
+			}
+		}
+		crossNote = fmt.Sprintf("all %d harnesses re-explored with %s in %.1fs: %d disagreement(s)", len(names), solverName(ts.CrossSolver), time.Since(t1).Seconds(), len(crossFail))
+		prog.SetSolver(cfg.Solver)
+	}
+
 	// ---- native side: build the replay binary once ----
 	nat := &native{id: id, spec: s, overlay: ov, harnesses: all, tier: cfg.Tier}
 	defer nat.cleanup()
@@ -261,6 +280,9 @@ func check(id, tier string, rest []string) int {
 		machineryFail = append(machineryFail, fmt.Sprintf(format, a...))
 	}
 
+	for _, c := range crossFail {
+		fail("%s", c)
+	}
 	known := loadKnown()
 	knownListed := map[string]knownFinding{}
 	for _, k := range known {
@@ -481,6 +503,7 @@ func check(id, tier string, rest []string) int {
 			"encoding_mismatches":           valMismatch,
 			"machinery_failures":            machineryFail,
 			"load_s":                        prog.LoadSec,
+			"cross_solver":                  crossNote,
 		},
 	}
 	os.MkdirAll(filepath.Join(verifRoot, "evidence"), 0o755)
@@ -511,10 +534,24 @@ func check(id, tier string, rest []string) int {
 }
 
 func solverName(s string) string {
-	if s == "" {
+	switch s {
+	case "", "z3":
 		return "z3 4.8.12 (z3 -in)"
+	case "cvc5":
+		return "cvc5 1.0 (--incremental)"
+	case "z3-new":
+		return "z3 5.1.0 (z3-new -in)"
 	}
 	return s
+}
+
+func firstNonEmpty(xs ...string) string {
+	for _, x := range xs {
+		if x != "" {
+			return x
+		}
+	}
+	return ""
 }
 
 func prefixAll(p string, xs []string) []string {
